@@ -82,6 +82,11 @@ def Impl.runFrom (I : Impl K V) : (Nat → I.σ) → List (MOp K V) → List (Ou
     | .panic => [.panic]
     | .diverge => [.diverge]
 
+/-- the family of heaps after a history (`panic`/`diverge` if some operation fails) -/
+def Impl.stateAfter (I : Impl K V) : (Nat → I.σ) → List (MOp K V) → Outcome (Nat → I.σ)
+  | regs, [] => .ok regs
+  | regs, op :: ops => obind (I.mstep regs op) fun p => I.stateAfter p.1 ops
+
 /-- history → trace on a family of heaps that are all freshly created -/
 def Impl.run (I : Impl K V) (ops : List (MOp K V)) : List (Outcome (Out K V)) := I.runFrom (fun _ => I.init) ops
 
